@@ -7,6 +7,11 @@ pub(crate) mod vmap {
 }
 
 #[allow(dead_code, unused_imports)]
+pub(crate) mod vstd {
+    include!(concat!(env!("UAZU_STAKKER_VERIF"), "/model/vstd.rs"));
+}
+
+#[allow(dead_code, unused_imports)]
 pub(crate) mod support {
     include!(concat!(env!("UAZU_STAKKER_VERIF"), "/incrate/support.rs"));
 }
